@@ -1,8 +1,31 @@
-"""C02 - Markovian SIS simulators sample the exact network SIS process (Gillespie_SIS part; fast_SIS: see DESIGN)."""
-from . import C01
+"""C02 - Markovian SIS simulators sample the exact network SIS process.
+Gillespie_SIS: view/rate loop invariants + draw-site obligations (as C01).
+fast_SIS: contracts on _find_next_trans_SIS_Markov (next transmission time = successive Exp(rate) delays from the
+current time, first one at which the target is susceptible again, only if before the source's recovery) and
+_process_rec_SIS_; _process_trans_SIS_Markov and the fast_SIS driver only by the bounded native stand-in."""
+from ..pyvc import verify as V
+from ..contracts import handlers_sis
+from . import C01, util
+
+
+def reg_sis():
+    r = V.Registry()
+    for c in handlers_sis.contracts():
+        r.add(c)
+    return r
 
 
 def run(tier, seed):
     rep, r = C01.run(tier, seed, prop='C02', units=('Gillespie_SIS',), fast=False)
-    rep.not_covered.append('fast_SIS (_find_next_trans_SIS_Markov / _process_trans_SIS_Markov / _process_rec_SIS_) is not under contract yet')
-    return rep, r
+    rep.add_unit_results(util.run_jobs(util.jobs_for(reg_sis, tier=tier, quals={'_process_rec_SIS_', '_find_next_trans_SIS_Markov'})))
+    from ..replay import sim_native
+    rep.add(util.native_ob('native:fast_SIS-and-Gillespie_SIS-scripted-draws', 'EoN/simulation.py:fast_SIS / Gillespie_SIS', sim_native.c02_native,
+                           'scripted random source on graphs <= 5 nodes, tmin in {0, -6, 2.5}: every waiting time of Gillespie_SIS is drawn with the total rate of the current '
+                           'state (weighted and unweighted, with re-infections); fast_SIS: every transmission delay drawn with tau*w, every recovery delay with gamma*w, '
+                           'events applied in time order, S+I conserved'))
+    rep.bounded_is_supplementary = False
+    rep.level = 'other'
+    rep.assumptions += ['fast_SIS: a delay is re-drawn from the failed attempt time while the target is still infected (memorylessness; cited) - proved per call of _find_next_trans_SIS_Markov',
+                        'heapq / myQueue contracts as in C04']
+    rep.not_covered += ['_process_trans_SIS_Markov and the fast_SIS initialisation are decided only by the bounded native stand-in (not under unbounded contract)']
+    return rep, util.native_replayer
